@@ -404,7 +404,15 @@ def r9_receive_error_reaches_the_loop(ctx):
         R.check(ok, "C07.R9", "try_recv:error-always-returned", "a receive error always leaves try_recv as Receive::Err", "try_recv can answer a receive error itself (a path from the error arm leaves without building Receive::Err - e.g. reports the connection as closed): an oversized message, which the caller answers with -32007 and survives, then closes the connection instead, depending on settings that have nothing to do with the size limit", "%s:%d" % (b.file, block_line(b, bi)))
 
 
-RULES = [r9_receive_error_reaches_the_loop, r8_ws_receive_buffer_fresh, r1_ws_frame_limit, r2_http_limit, r3_plumbing, r4_limit_before_read, r5_ws_oversize_arm, r6_size_gates, r7_server_builder_fields, rsib_entry_points_agree, rcfg_config_verbatim, rstatus_http_status_table, rin_inbound_limits_from_request_limit]
+def rhyper_vetted_transport_options(ctx):
+    """which requests hyper itself accepts is not narrowed by options derived from the request limit: the hyper connection
+    builder is configured with the vetted closed list of options only (an HTTP/2 max_frame_size computed from a small
+    max_request_body_size makes every HTTP/2 connection fail instead of answering 200 / 413) (= C11.R6)"""
+    from . import c11
+    c11.r6_vetted_transport_options(ctx)
+
+
+RULES = [rhyper_vetted_transport_options, r9_receive_error_reaches_the_loop, r8_ws_receive_buffer_fresh, r1_ws_frame_limit, r2_http_limit, r3_plumbing, r4_limit_before_read, r5_ws_oversize_arm, r6_size_gates, r7_server_builder_fields, rsib_entry_points_agree, rcfg_config_verbatim, rstatus_http_status_table, rin_inbound_limits_from_request_limit]
 
 LEVEL_TEXT = (
     "Structural necessary conditions decided exactly from the type-checked program: which configuration field every "
